@@ -265,16 +265,25 @@ def run_conditional(case):
     # conditioning value: marginal quantile of the conditioning variable
     if dim == 1:
         g = float(m.distributions[0].icdf(q))       # Hs value
+        if case.get("int_given"):
+            g = float(max(1, round(g)))
         exact = lambda x: tz_given_hs_cdf(m, x, g)
     else:
         S = np.asarray(t.inverse(m.draw_sample(400000, random_state=9)), dtype=float)
         g = float(np.quantile(S[:, 1], q))            # Tz value
+        if case.get("int_given"):
+            g = float(max(1, round(g)))
         exact = lambda x: hs_given_tz_cdf(m, x, g)
     with warnings.catch_warnings(record=True) as wl:
         warnings.simplefilter("always")
         try:
-            smp = np.asarray(t.conditional_sample(n_s, dim, [g], random_state=seed), dtype=float)
-            smp2 = np.asarray(t.conditional_sample(n_s, dim, [g], random_state=seed), dtype=float)
+            # the conditioning value as the user may pass it: float list, python int, integer array
+            gv = {None: [g], "pyint": int(g), "intarray": np.array([int(g)])}[case.get("int_given")]
+            smp = np.asarray(t.conditional_sample(n_s, dim, gv, random_state=seed), dtype=float)
+            smp2 = np.asarray(t.conditional_sample(n_s, dim, gv, random_state=seed), dtype=float)
+        except ValueError as e:
+            bad("exception", {"given": g, "type": "ValueError", "msg": str(e)[:120], "int_given": case.get("int_given")})
+            return {"viol": viol, "n": 1, "nontrivial": 1, "outcomes": ["exception"]}
         except CouldNotSampleError:
             # witness: the joint density along the conditioning line never reaches the sampler's threshold 1e-7
             bad("could_not_sample", {"given": g, "quantile_of_given": q})
@@ -302,14 +311,15 @@ def run_conditional(case):
     # conditional_cdf / conditional_icdf at a few levels
     for pl in case.get("levels", []):
         x_exact = None
-        xi = np.asarray(t.conditional_icdf(np.array([pl]), dim, np.array([[g]]), random_state=seed), dtype=float)[0]
+        G = np.array([[g]]) if not case.get("int_given") else np.array([[int(g)]])
+        xi = np.asarray(t.conditional_icdf(np.array([pl]), dim, G, random_state=seed), dtype=float)[0]
         n += 1
         n_mc = int(min(max((1 / (pl if pl < 0.5 else 1 - pl)) * 100, 100000), 10000000))
         Fx = float(np.clip(exact(np.array([xi]))[0], 0, 1))
         lo, hi = stats.binom_band(n_mc, Fx)
         if not (lo - 2 <= pl * n_mc <= hi + 2):
             bad("conditional_icdf", {"p": pl, "x": xi, "exact_cdf_at_x": Fx, "given": g, "n_mc": n_mc})
-        pc = float(np.asarray(t.conditional_cdf(np.array([xi]), dim, np.array([[g]]), random_state=seed + 1), dtype=float)[0])
+        pc = float(np.asarray(t.conditional_cdf(np.array([xi]), dim, G, random_state=seed + 1), dtype=float)[0])
         n += 1
         lo, hi = stats.binom_band(100000, Fx)
         if not (lo <= pc * 100000 <= hi):
@@ -402,6 +412,12 @@ def main(ctx):
                     for seed in ((0,) if (q and dim == 0) else ((1,) if q else (0, 1, 2))):
                         lv = [0.5, 0.99] if (qq in (0.5, 0.99) and n_s == 10000 and seed in (0, 1)) else []
                         cases.append({"kind": "conditional", "model": name, "dim": dim, "q": qq, "n": n_s, "seed": (seed + s) if seed else 0, "levels": lv})
+    # integer-typed conditioning values (python int, integer array) at ordinary values
+    for name in ("windmeier",) if q else ("windmeier", "nonzero"):
+        for dim in (0, 1):
+            for ig in ("pyint", "intarray"):
+                cases.append({"kind": "conditional", "model": name, "dim": dim, "q": 0.6, "n": 10000, "seed": 3, "levels": [0.5],
+                              "int_given": ig})
     if q:
         cfgs = [("windmeier", 1e-2, 4, 0.1, 42), ("nonzero", 1e-2, 4, 0.1, 0)]   # random_state 0 is falsy: part of the alphabet
     else:
